@@ -3,9 +3,10 @@
 //   U <op> <width> <signed> <value>            eval_value_unary
 //   B <op> <width> <signed> <value> <value>    eval_value_binary
 //   SEL <beg> <end> <value> | CAT <value> <value> | EXP <width> <use_sign> <value> | TRUNC <width> <value>
-//   TOSV <value> | OFSV <n> {<aval> <bval>} | FST <value>
+//   TOSV <value> | OFSV <n> {<aval> <bval>} | FST <value> | VCD <i> <value> | VCDIT <value>
+//   RTSV <value>   (Vec<SvLogicVecVal> -> Value round trip of the encoding of <value>)
 // <value> = <rep U|B> <payload> <mask_xz> <width> <signed 0|1>
-// result: OK <value>  |  OKSV n {a b}  | OKFST <bytes csv> | PANIC
+// result: OK <value>  |  OKSV n {a b}  | OKFST <bytes> | OKVCD <chars 0 1 x z> | PANIC
 use num_bigint::BigUint;
 use std::io::{self, BufRead, Write};
 use veryl_analyzer::ir::Op;
@@ -169,6 +170,26 @@ fn run(line: &str) -> String {
                 s.push_str(&format!(" {}", c));
             }
             s
+        }
+        "VCD" => {
+            let i: u64 = t.next().parse().unwrap();
+            let x = t.value();
+            format!("OKVCD {}", x.to_vcd_value(i))
+        }
+        "VCDIT" => {
+            // the iterator handed to vcd::Writer::change_vector (MSB first)
+            let x = t.value();
+            let mut s = String::from("OKVCD ");
+            for b in (&x).into_iter() {
+                s.push_str(&format!("{}", b));
+            }
+            s
+        }
+        "RTSV" => {
+            let x = t.value();
+            let v: Vec<SvLogicVecVal> = (&x).into();
+            let y: Value = v.as_slice().into();
+            format!("OK {}", show(&y))
         }
         x => panic!("bad command {x}"),
     }
